@@ -159,9 +159,22 @@ func runProgram(prog *program.Program, in nsx.Input) (ob runObs) {
 		ob.Stage, ob.Class = "run", classify("run", err)
 		return
 	}
-	_ = res
 	ob.Stage = "done"
-	ob.Postings, ob.TxMeta, ob.AccMeta = m.Postings, m.TxMeta, m.AccountsMeta
+	ob.TxMeta, ob.AccMeta = m.TxMeta, m.AccountsMeta
+	// the postings observed are those vm.Run RETURNS (what the engine commits), not the machine's internal list
+	ob.Postings = nil
+	for _, p := range res.Postings {
+		ob.Postings = append(ob.Postings, vm.Posting{Source: p.Source, Destination: p.Destination, Asset: p.Asset, Amount: (*machine.MonetaryInt)(p.Amount)})
+	}
+	// the transaction metadata vm.Run returns has exactly the keys the script set plus the request's extra metadata
+	if len(res.Metadata) != len(m.TxMeta)+len(extra) {
+		ob.Stage, ob.Class = "run", "EResultMetadataDiffers"
+	}
+	for acc, kv := range m.AccountsMeta {
+		if len(res.AccountMetadata[string(acc)]) != len(kv) {
+			ob.Stage, ob.Class = "run", "EResultAccountMetadataDiffers"
+		}
+	}
 	return
 }
 
@@ -1213,6 +1226,39 @@ func boundaryFamily() []nsx.Input {
 		sc = "send [USD 10] (\n  source = @a allowing overdraft up to [USD " + lit + "] - [USD 3]\n  destination = @alice\n)\n"
 		out = append(out, nsx.Input{Script: sc, Vars: map[string]string{}, Balances: map[string]map[string]string{"a": {"USD": "5"}}, Meta: map[string]map[string]string{}, Note: "boundary:number-literal"})
 	}
+	// an account that is source AND destination of one send, then a later send that relies on what came back
+	for _, b := range []int64{0, 30, 100} {
+		bal := map[string]map[string]string{"a": {"USD": fmt.Sprint(b)}, "c": {"USD": "50"}}
+		for _, first := range []string{
+			"send [USD 30] (\n  source = @a\n  destination = @a\n)\n",
+			"send [USD 60] (\n  source = {\n    @a\n    @c\n  }\n  destination = @a\n)\n",
+			"send [USD 40] (\n  source = @c\n  destination = {\n    50% to @c\n    remaining to @a\n  }\n)\n",
+			"send [USD 30] (\n  source = @a allowing overdraft up to [USD 50]\n  destination = @a\n)\n",
+		} {
+			for _, second := range []string{"send [USD *] (\n  source = @a\n  destination = @b\n)\n", "send [USD 100] (\n  source = @a\n  destination = @b\n)\n", "send [USD 31] (\n  source = @a\n  destination = @b\n)\n", ""} {
+				out = append(out, nsx.Input{Script: first + second, Vars: map[string]string{}, Balances: bal, Meta: map[string]map[string]string{}, Note: "boundary:self-posting-then-spend"})
+			}
+		}
+	}
+	// the same source -> destination pair twice in one script, the source refilled in between: the postings stay in the order
+	// in which they were checked
+	for _, amts := range [][3]int64{{50, 50, 50}, {50, 20, 60}, {10, 25, 25}, {0, 5, 5}} {
+		sc := send(amts[0], "@a", "@b") + send(amts[1], "@c", "@a") + send(amts[2], "@a", "@b")
+		out = append(out, nsx.Input{Script: sc, Vars: map[string]string{}, Balances: map[string]map[string]string{"a": {"USD": "50"}, "c": {"USD": "50"}}, Meta: map[string]map[string]string{}, Note: "boundary:same-pair-twice-with-refill"})
+		sc = send(amts[0], "@a", "@b") + send(amts[1], "@world", "@a") + send(amts[2], "@a", "@b") + send(amts[0], "@a", "@b")
+		out = append(out, nsx.Input{Script: sc, Vars: map[string]string{}, Balances: map[string]map[string]string{"a": {"USD": "50"}}, Meta: map[string]map[string]string{}, Note: "boundary:same-pair-twice-with-refill"})
+	}
+	// accounts whose address merely STARTS like the world account are ordinary accounts
+	for _, acc := range []string{"world:fees", "world:reserve", "worldwide", "world_", "worl"} {
+		for _, sc := range []string{
+			"send [USD 100] (\n  source = @" + acc + "\n  destination = @b\n)\n",
+			"send [USD 50] (\n  source = {\n    @a\n    @" + acc + "\n  }\n  destination = @b\n)\n",
+			"send [USD 15] (\n  source = @" + acc + " allowing overdraft up to [USD 5]\n  destination = @b\n)\n",
+			"send [USD *] (\n  source = @" + acc + "\n  destination = @b\n)\n",
+		} {
+			out = append(out, nsx.Input{Script: sc, Vars: map[string]string{}, Balances: map[string]map[string]string{"a": {"USD": "30"}, acc: {"USD": "10"}}, Meta: map[string]map[string]string{}, Note: "boundary:world-like-account"})
+		}
+	}
 	// save between two takes: what a save keeps back is never handed out again, whatever the sign of the balance
 	for _, b := range []int64{-5, 0, 10} {
 		bal := map[string]map[string]string{"a": {"USD": fmt.Sprint(b)}, "c": {"USD": "4"}}
@@ -1353,7 +1399,7 @@ func main() {
 	fam := boundaryFamily()
 	for i, in := range fam {
 		// quick tier: a seeded third of the family; thorough: all of it
-		if r.Thorough() || g.Intn(3) == 0 || i%97 == 0 || strings.HasPrefix(in.Note, "boundary:variable-spelling") || in.Note == "boundary:save-then-credit" || in.Note == "boundary:world-in-front-of-a-portioned-source-kept" || in.Note == "boundary:capped-ordered-source-revisits-account" || in.Note == "boundary:foreign-character" || in.Note == "boundary:number-literal" {
+		if r.Thorough() || g.Intn(3) == 0 || i%97 == 0 || strings.HasPrefix(in.Note, "boundary:variable-spelling") || in.Note == "boundary:save-then-credit" || in.Note == "boundary:world-in-front-of-a-portioned-source-kept" || in.Note == "boundary:capped-ordered-source-revisits-account" || in.Note == "boundary:foreign-character" || in.Note == "boundary:number-literal" || in.Note == "boundary:self-posting-then-spend" || in.Note == "boundary:same-pair-twice-with-refill" || in.Note == "boundary:world-like-account" {
 			one(r, in)
 			r.Count("boundary-family")
 		}
